@@ -21,6 +21,7 @@ func init() {
 			p.W["iter.loaded"] = 5
 			p.W["popall"] = 3
 			p.W["a.fill"], p.W["m.fill"] = 4, 4
+			p.W["copy"], p.W["bulk.map"], p.W["bulk.arr"] = 3, 2, 1 // enumerate copies and batch-built containers too
 			p.DigSpec = func(r *Rng) *DigesterSpec {
 				if r.Chance(0.4) {
 					return nil
